@@ -121,6 +121,13 @@ def regenerate(repo, lean_dir):
             if isinstance(node, ast.If) and ga_miss is None and any(isinstance(n, ast.Subscript) and '_attrnames_cache_' in ast.unparse(n) for st in node.body for n in ast.walk(st)): ga_miss = ast.unparse(node.test)
         if ga_key is None or ga_lookup is None or ga_miss is None or len(ga_stores) != 1: raise ValueError('_get_attrs_: key / cache lookup / miss test / single store not found')
         ga_params = [a.arg for a in ga.args.args[1:]]
+        # QueryResult._get_items / __getstate__ and Query.__reduce__
+        gi = _method(core, 'QueryResult', '_get_items'); gs = _method(core, 'QueryResult', '__getstate__'); qr = _method(core, 'Query', '__reduce__')
+        fetch_calls = [ast.unparse(n) for n in ast.walk(gi) if isinstance(n, ast.Call) and isinstance(n.func, ast.Attribute) and n.func.attr == '_actual_fetch']
+        if len(fetch_calls) != 1: raise ValueError('QueryResult._get_items: exactly one _actual_fetch call expected')
+        gs_body = [st for st in gs.body if not (isinstance(st, ast.Expr) and isinstance(st.value, ast.Constant))]
+        qr_body = [st for st in qr.body if not (isinstance(st, ast.Expr) and isinstance(st.value, ast.Constant))]
+        if len(gs_body) != 1 or len(qr_body) != 1: raise ValueError('QueryResult.__getstate__ / Query.__reduce__: a single statement expected')
         lines = ['/- GENERATED by harness/gen_c31.py from pony/orm/serialization.py and pony/orm/core.py -- do not edit. -/',
                  'namespace PonyVerif.Gen.ReducePk',
                  'def sep : String := %s' % lean_str(sep),
@@ -137,6 +144,9 @@ def regenerate(repo, lean_dir):
                  'def attrsCacheLookup : String := %s' % lean_str(ga_lookup),
                  'def attrsCacheMissTest : String := %s' % lean_str(ga_miss),
                  'def attrsCacheStore : String := %s' % lean_str(ga_stores[0]),
+                 'def resultFetchCall : String := %s' % lean_str(fetch_calls[0]),
+                 'def resultGetstate : String := %s' % lean_str(ast.unparse(gs_body[0])),
+                 'def queryReduce : String := %s' % lean_str(ast.unparse(qr_body[0])),
                  'end PonyVerif.Gen.ReducePk', '']
         text = '\n'.join(lines)
         old = open(path).read() if os.path.exists(path) else None
